@@ -191,7 +191,7 @@ var propC11 = &Prop[EquCase]{
 				names = append(names, cand)
 			}
 		}
-		lits := []int64{0, 1, 2, 3, 5, 8, 16, 100, 126, 127, 128, 129, 255, 256, 0x7ffe, 0x7fff, 0x8000, 0xffff, 0x10000, -1, -2, -128, -129}
+		lits := []int64{0, 1, 2, 3, 5, 8, 16, 100, 126, 127, 128, 129, 255, 256, 0x7ffe, 0x7fff, 0x8000, 0xffff, 0x10000, -1, -2, -128, -129, 0x7fffffff, 0x80000000, 0xfffffff0, 0xffffffff, 0x100000000, -0x80000000}
 		for i, nm := range names {
 			d := EquDef{Name: nm}
 			if i == 0 || rapid.IntRange(0, 3).Draw(t, "lit") == 0 {
@@ -223,6 +223,16 @@ var propC11 = &Prop[EquCase]{
 				d.Dep = p.Dep + 1
 			}
 			c.Defs = append(c.Defs, d)
+		}
+		// a table naming many constants in one statement
+		if rapid.IntRange(0, 3).Draw(t, "table") == 0 {
+			dir := rapid.SampledFrom([]string{"DB", "DW", "DD"}).Draw(t, "tdir")
+			var items []string
+			for k := rapid.IntRange(6, 14).Draw(t, "tn"); k > 0; k-- {
+				items = append(items, c.Defs[rapid.IntRange(0, len(c.Defs)-1).Draw(t, "titem")].Name)
+			}
+			c.Stmts = append(c.Stmts, dir+" "+strings.Join(items, ","))
+			c.Sites = append(c.Sites, "table")
 		}
 		ns := rapid.IntRange(1, 6).Draw(t, "nstmts")
 		for i := 0; i < ns; i++ {
